@@ -54,7 +54,7 @@ PROPS = {
     'C12': {
         'props': 'Props/C12.v',
         'suites': [{'name': 'cdecode', 'oracles': {'cdecode': 'o_reqs'}, 'trivial_tags': ['out-wait'], 'vm_sample': 40}, {'name': 'cfeed', 'oracles': {'cfeed': 'o_feed'}, 'trivial_tags': [], 'vm_sample': 15},
-                   {'name': 'pressure', 'oracles': {'loopfinal': 'o_loop'}, 'trivial_tags': ['plain'], 'vm_sample': 3, 'sigs': ['event-loop-stopped', 'request-never-answered-and-connection-left-open']}],
+                   {'name': 'pressure', 'oracles': {'loopfinal': 'o_loop'}, 'trivial_tags': ['plain'], 'vm_sample': 3, 'sigs': ['event-loop-stopped', 'request-never-answered-and-connection-left-open']}, {'name': 'loop', 'oracles': {'loop': 'o_loop'}, 'trivial_tags': ['plain'], 'vm_sample': 6, 'sigs': ['backend-received-bytes-that-are-not-requests', 'event-loop-stopped', 'request-never-answered-and-connection-left-open']}],
         'rule': 'pressure: 60 (quick) histories through the production loop with minimal socket send buffers and peers that read late - a client that has read nothing sends garbage and must be closed without stalling the loop; as C06/C08, with the hostile stream: counts/lengths 0, -1, -0, +1, 00, 01, 2^31, 2^63-1, 2^63, 2^64+k, 20+ digits, empty; wrong type '
                 'markers; dropped CR/LF; truncations; inline commands; random bytes; bit flips; leading blank lines - alone and followed by valid requests',
         'explanation': 'Theorems (decoder side): the decoder never yields the nil result or diverges on any input (C12_decoder_total, '
@@ -158,7 +158,7 @@ PROPS = {
     },
     'C01': {
         'props': 'Props/C01.v',
-        'suites': [{'name': 'loop', 'oracles': {'loop': 'o_loop'}, 'trivial_tags': ['plain'], 'vm_sample': 12, 'sigs': ['more-replies-than-requests', 'reply-does-not-belong-to-the-request-at-its-position', 'stray-bytes-after-the-last-reply', 'request-never-answered-and-connection-left-open', 'event-loop-stopped']}],
+        'suites': [{'name': 'loop', 'oracles': {'loop': 'o_loop'}, 'trivial_tags': ['plain'], 'vm_sample': 12, 'sigs': ['more-replies-than-requests', 'reply-does-not-belong-to-the-request-at-its-position', 'stray-bytes-after-the-last-reply', 'request-never-answered-and-connection-left-open', 'event-loop-stopped']}, {'name': 'pressure', 'oracles': {'loopfinal': 'o_loop'}, 'trivial_tags': ['plain'], 'vm_sample': 3, 'sigs': ['reply-does-not-belong-to-the-request-at-its-position', 'more-replies-than-requests', 'stray-bytes-after-the-last-reply', 'request-never-answered-and-connection-left-open', 'event-loop-stopped']}],
         'rule': LOOP_RULE,
         'explanation': 'Theorem C01_replies_in_order, by an invariant proved inductive over every event of the event-loop model (CInvG): for every history the bytes a client has received are the replies of its requests 0..k-1 in order, one each, nothing else. Three genuine defects repaired (local replies overtook queued ones; QUIT dropped outstanding replies; flush only when the whole queue was done). The model is tied to the production loop by replaying recorded histories; the session oracle checks every client stream against the expected reply of each request by position.',
         'assumptions': ["backend replies are well-formed RESP2 and one per request written (wf_backend); a malformed or unsolicited backend reply makes the production loop spin (RHang in the model) - outside the property's environment", 'request objects are not reused in the model (after the repairs a late reply for a done fragment is dropped before the request is touched, so sync.Pool reuse is unobservable); the correspondence run exercises the real pool', 'sockets are append-only byte sinks in the model (partial writes / EPOLLOUT: property C19)'],
@@ -221,6 +221,8 @@ PROPS = {
 # wrong node shows there)
 for _pid in ('C06', 'C07', 'C11', 'C17'):
     PROPS[_pid]['rule'] += ' | loop suite: ' + LOOP_RULE
+PROPS['C01']['rule'] += ' | pressure suite: as C10 (replies larger than the buffers to clients that read late; locally answered requests behind a backlog)'
+PROPS['C12']['rule'] += ' | loop suite: ' + LOOP_RULE
 PROPS['C09']['rule'] += ' | pressure suite: as C10; includes events that are readable and writable at once, delivered through the dispatcher of the reactor (eventloop.callback), to a client with replies piled up that has just emptied its socket'
 PROPS['C02']['rule'] += ' | loop suite: ' + LOOP_RULE + ' | pressure suite: as C10 (replies and requests larger than the socket buffers, peers that read late and in pieces)'
 
